@@ -109,6 +109,8 @@ def run(outcome, tier, seed):
                     bad.append("status 1 without an 'xt error' message")
                 if a_status == ("exit", 0) and a_err != b"":
                     bad.append("status 0 with text on stderr")
+                if r["case"].mode == "tty" and p["kind"] == "args" and p.get("to") == "msgpack" and (a_out != b"" or a_status == ("exit", 0)):
+                    bad.append("MessagePack written to a terminal (status %s, %d bytes on the terminal)" % (a_status[1], len(a_out)))
                 rec = {"what": "; ".join(bad) if bad else "model and binary disagree: " + "; ".join(diffs), "argv": r["case"].argv,
                        "stdout_kind": r["case"].mode, "parsed": {k: (v if not isinstance(v, list) else [str(x) for x in v]) for k, v in p.items()},
                        "observed": {"status": a_status, "stdout": a_out[:200].decode("utf-8", "replace"), "stderr": a_err[:300].decode("utf-8", "replace")},
